@@ -135,8 +135,11 @@ pub fn c09(rep: &mut Report, cfg: &Cfg) {
     // stores to all other plain locations followed by elapsed peripheral time must leave every
     // location as written (a store decoded by the wrong peripheral shows only after time passes)
     {
-        let _ = cpu.bus.write(0xffff80, 0);
-        mem.poke(0xffff80, 0);
+        // (all four channels: an implementation may model channels 1-3 as well)
+        for a in [0xffff80u32, 0xffff81, 0xffff90, 0xffff91] {
+            let _ = cpu.bus.write(a, 0);
+            mem.poke(a, 0);
+        }
         let k = cfg.seed.wrapping_mul(977).wrapping_add(cfg.shard);
         for (lo, hi, name) in REGIONS {
             if !name.starts_with("io") {
